@@ -20,7 +20,8 @@
 enum { EV_LAUNCH_CALL = 1, EV_LAUNCH_RET, EV_FN_ENTER, EV_FN_EXIT, EV_ATEXIT, EV_JOIN_CALL, EV_JOIN_RET, EV_JOINALL_CALL, EV_JOINALL_RET, EV_COUNT };
 
 enum { F_MANAGED, F_MANUAL, F_NESTED_MANAGED, F_ATEXIT_MULTI, F_CREATE_FAILED, F_JOINALL_BEFORE_FINISH, F_JOINALL_AFTER_FINISH, F_NAMED, F_PINNED_RETRY,
-       F_MANY_THREADS, F_MANUAL_LAUNCHES_MANAGED, F_STACK_SIZE };
+       F_MANY_THREADS, F_MANUAL_LAUNCHES_MANAGED, F_STACK_SIZE, F_TIMED_JOINALL_GAVE_UP, F_REINIT_WITH_THREADS_OUTSTANDING,
+       F_TIMED_JOINALL_COMPLETED };
 
 #define MAX_T 56
 #define MAX_ATEXIT 5
@@ -39,6 +40,7 @@ struct tdesc {
     uint64_t arg_cookie;
     int launch_rc; /* written by the launcher after the call */
     int launched;  /* 1 once the launch call has been issued */
+    int entered;   /* set (release) by the thread function on entry */
 };
 
 static struct {
@@ -46,6 +48,7 @@ static struct {
     int n;
     int nroots;
     int roots[MAX_T];
+    bool flat; /* no thread launches further threads (needed for the library re-init history) */
 } S;
 
 struct atexit_arg {
@@ -75,6 +78,7 @@ static void thread_main(void *arg) {
     mon_ev_bind((unsigned)(d->id + 1));
     perturb_bind((unsigned)((d->id + 1) & 31));
     mon_ev(EV_FN_ENTER, (uint64_t)d->id, d->arg_cookie, 0);
+    __atomic_store_n(&d->entered, 1, __ATOMIC_RELEASE);
     for (int i = 0; i < d->yields; ++i) {
         sched_yield();
     }
@@ -143,7 +147,8 @@ static void generate(struct mon_rng *r) {
     }
     /* children: managed threads launched by other threads, depth <= 3 */
     int first = 0, last = S.n;
-    for (int depth = 1; depth <= 3; ++depth) {
+    S.flat = mon_chance(r, 1, 5);
+    for (int depth = 1; depth <= 3 && !S.flat; ++depth) {
         for (int p = first; p < last && S.n < MAX_T; ++p) {
             if (!mon_chance(r, 1, 3)) {
                 continue;
@@ -165,6 +170,9 @@ static void generate(struct mon_rng *r) {
         d->natexit = mon_chance(r, 1, 2) ? 0 : (int)mon_below(r, MAX_ATEXIT + 1);
         d->sleep_before_us = mon_chance(r, 1, 2) ? 0 : (uint32_t)mon_below(r, 400);
         d->sleep_after_us = mon_chance(r, 1, 2) ? 0 : (uint32_t)mon_below(r, 600);
+        if (mon_chance(r, 1, 8)) {
+            d->sleep_after_us = 1000 + (uint32_t)mon_below(r, 3000); /* outlives a short join timeout */
+        }
         d->yields = (int)mon_below(r, 4);
         unsigned o = (unsigned)mon_below(r, 100);
         d->opt_kind = o < 55 ? 0 : o < 65 ? 1 : o < 80 ? 2 : o < 88 ? 3 : 4;
@@ -261,6 +269,9 @@ static void check(struct mon_event *ev, size_t n, const struct mon_alloc_stats *
                     joinall_ret[njoinall_ret++] = e->t;
                 }
                 uint64_t call_t = joinall_call[njoinall - 1];
+                if (e->b /* timeout configured */ && e->a /* gave up, or result not visible (library clean-up) */) {
+                    break;
+                }
                 for (int i2 = 0; i2 < S.n; ++i2) {
                     struct tcheck *m = &c[i2];
                     if (!S.t[i2].managed || !m->launch_returned || m->launch_failed || m->t_launch_ret > call_t) {
@@ -352,6 +363,8 @@ static void run_case(void) {
     }
     /* main: launch roots, interleaved with join-all / joins in PRNG order */
     bool early_joinall = mon_chance(r, 1, 2);
+    bool timed_prelude = S.flat ? mon_chance(r, 3, 4) : mon_chance(r, 1, 6);
+    mon_fp(timed_prelude);
     uint32_t main_nap = mon_chance(r, 1, 2) ? 0 : (uint32_t)mon_below(r, 800);
     for (int i = 0; i < S.nroots; ++i) {
         launch_one(&S.t[S.roots[i]]);
@@ -361,6 +374,60 @@ static void run_case(void) {
     }
     nap(main_nap);
     int unfinished_at_joinall = 0;
+    if (timed_prelude) {
+        /* a finite join timeout, a join-all that may give up (directly, or inside the library clean-up), possibly a
+         * library re-initialisation with managed threads still outstanding; afterwards the unbounded join-all below must
+         * still wait for, join and free every one of them */
+        uint64_t timeout_ns = 20000 + mon_below(r, 1500000);
+        bool via_cleanup = S.flat && mon_chance(r, 4, 5);
+        /* aws_common_library_init writes globals that a starting thread reads (g_set_mempolicy_ptr): initialising the
+         * library while threads start up is the caller's race, not the library's. The re-init variant is therefore only
+         * used when no thread launches further threads, and only after every launched thread has entered its function. */
+        for (int i = 0; i < S.n; ++i) {
+            if (S.t[i].nchildren) {
+                via_cleanup = false;
+            }
+        }
+        if (via_cleanup) {
+            struct timespec t0, t1;
+            clock_gettime(CLOCK_MONOTONIC, &t0);
+            for (int i = 0; i < S.nroots; ++i) {
+                struct tdesc *d = &S.t[S.roots[i]];
+                while (d->launch_rc == 0 && !__atomic_load_n(&d->entered, __ATOMIC_ACQUIRE)) {
+                    sched_yield();
+                    clock_gettime(CLOCK_MONOTONIC, &t1);
+                    if (t1.tv_sec - t0.tv_sec > 30) {
+                        break; /* the scenario watchdog reports it */
+                    }
+                }
+            }
+        }
+        uint32_t gap_us = mon_chance(r, 1, 2) ? 0 : (uint32_t)mon_below(r, 1200);
+        aws_thread_set_managed_join_timeout_ns(timeout_ns);
+        mon_ev(EV_JOINALL_CALL, 0, 1, 0);
+        if (via_cleanup) {
+            aws_common_library_clean_up();
+            mon_ev(EV_JOINALL_RET, 1, 1, 0);
+            size_t left = aws_thread_get_managed_thread_count();
+            nap(gap_us); /* threads may finish and queue for their join while the library is "down" */
+            aws_common_library_init(aws_default_allocator());
+            if (left) {
+                mon_flag(F_REINIT_WITH_THREADS_OUTSTANDING);
+                mon_count("library_reinit_with_managed_threads_outstanding", 1);
+            }
+        } else {
+            int rc = aws_thread_join_all_managed();
+            mon_ev(EV_JOINALL_RET, (uint64_t)(rc != 0), 1, 0);
+            if (rc) {
+                mon_flag(F_TIMED_JOINALL_GAVE_UP);
+                mon_count("timed_join_all_gave_up", 1);
+            } else {
+                mon_flag(F_TIMED_JOINALL_COMPLETED);
+            }
+            nap(gap_us);
+        }
+        aws_thread_set_managed_join_timeout_ns(0);
+    }
     if (early_joinall) {
         mon_ev(EV_JOINALL_CALL, 0, 0, 0);
         int rc = aws_thread_join_all_managed();
@@ -478,7 +545,8 @@ int main(int argc, char **argv) {
     mon_watchdog_disarm();
     static const char *names[] = {"managed_thread", "manual_thread_joined", "managed_thread_launched_by_thread", "several_at_exit_callbacks", "pthread_create_failed",
                                   "join_all_called_before_all_finished", "join_all_called_after_all_finished", "named_thread", "pinned_launch_with_fault_retry",
-                                  "16_or_more_threads", "manual_thread_launched_managed", "explicit_stack_size"};
+                                  "16_or_more_threads", "manual_thread_launched_managed", "explicit_stack_size", "timed_join_all_gave_up",
+                                  "library_reinit_with_managed_threads_outstanding", "timed_join_all_completed"};
     for (int i = 0; i < (int)(sizeof(names) / sizeof(names[0])); ++i) {
         mon_flag_name(i, names[i]);
     }
